@@ -115,7 +115,7 @@ func genToken(t *rapid.T, depth int) string {
 	}
 }
 
-var delims = []string{";", ";", ";", ";;", "$$", "//", `\n\n`, `\n\n\n`, "GO", "|", "'", "''", "' '", "';'", "-- ", "END", "\xff"}
+var delims = []string{";", ";", ";", ";;", "$$", "//", `\n\n`, `\n\n\n`, "GO", "|", "'", "''", "' '", "';'", "-- ", "END", "\xff", "é", "§", "€€", "日本", "é;", ";é"}
 
 func genDelimCmd(t *rapid.T) (line, delim string) {
 	d := rapid.SampledFrom(delims).Draw(t, "delim")
